@@ -171,6 +171,7 @@ func c20Build(args []string) int {
 type C20StdJob struct {
 	Scratch string
 	Pkgs    []string
+	All     bool // also round-trip every dependency loaded along the way (thorough tier)
 	Out     string
 }
 
@@ -203,10 +204,10 @@ func c20StdRoundtrip(args []string) int {
 			continue
 		}
 		for _, srcs := range s.GetSortedSources() {
-			if srcs.ImportPath != path || seen[path] {
+			if (srcs.ImportPath != path && !job.All) || seen[srcs.ImportPath] {
 				continue // dependencies are requested on their own if they have an overlay
 			}
-			seen[path] = true
+			seen[srcs.ImportPath] = true
 			out.Results = append(out.Results, cw.RoundTripOne(root, srcs))
 		}
 	}
